@@ -93,6 +93,13 @@ def write_replay(prop, rec, res, outdir, bounded=None, note=""):
         "repo_fingerprint": source_fingerprint(),
         "replay_cmd": f"./check replay {path}",
     }
+    model_replay = replay_engine_model(rec, res, path)
+    if model_replay is not None:
+        data["verifier_counterexample_replayed_on_real_code"] = model_replay
+    if model_replay is not None and model_replay.get("reproduced"):
+        data["found_by"] = "the solver's model of the failed obligation, replayed natively (tools/replay_model.py)"
+        json.dump(data, open(path, "w"), indent=1, default=str)
+        return path, True
     if bounded and bounded.get("violations"):
         v = bounded["violations"][0]
         data["concrete_failing_input"] = v
@@ -100,6 +107,35 @@ def write_replay(prop, rec, res, outdir, bounded=None, note=""):
         data["bounded_result_file"] = bounded.get("file")
     json.dump(data, open(path, "w"), indent=1, default=str)
     return path, bool(bounded and bounded.get("violations"))
+
+
+def replay_engine_model(rec, res, path):
+    """stratum A: replay the verifier's counterexample on the real primitive (None if not applicable)"""
+    func = rec.get("func", "")
+    if not func.startswith("sym_metanet.engines.") or not res.get("file") or not os.path.exists(res["file"]):
+        return None
+    module, prim = func.split(":")[0].rsplit(".", 1)[1], func.split(":", 1)[1]
+    if module not in ("numpy", "casadi"):
+        return None
+    try:
+        from contracts import engines_tasks as ET
+
+        cfg = [c for p_, l_, c in ET.configs({"numpy": "np", "casadi": "cs"}[module]) if p_ == prim and l_ == rec.get("config")]
+        if not cfg:
+            return None
+        out = path + ".model_replay.json"
+        env = dict(os.environ)
+        if REPO != "/repo":
+            env["PYTHONPATH"] = os.path.join(REPO, "src") + os.pathsep + env.get("PYTHONPATH", "")
+        p = subprocess.run([PY, os.path.join(HERE, "tools", "replay_model.py"), res["file"], module, prim, json.dumps(cfg[0]), "--out", out],
+                           capture_output=True, text=True, timeout=120, env=env, cwd=HERE)
+        if os.path.exists(out):
+            r = json.load(open(out))
+            r["cmd"] = f"{PY} tools/replay_model.py {res['file']} {module} {prim} '{json.dumps(cfg[0])}'"
+            return r
+        return {"reproduced": False, "note": (p.stdout + p.stderr)[-400:]}
+    except Exception as e:  # noqa: BLE001
+        return {"reproduced": False, "note": f"{type(e).__name__}: {e}"}
 
 
 def finding_matches(f, prop, res):
@@ -309,6 +345,13 @@ def replay(path):
         v, out, dt = S.run_solver("z3-4.8", d["smt_file"], 20)
         print(f"re-running the failed obligation: {v} ({dt:.2f}s)")
         rc = 1 if v == "sat" else 0
+    mr = d.get("verifier_counterexample_replayed_on_real_code")
+    if mr and mr.get("cmd"):
+        env = dict(os.environ)
+        if REPO != "/repo":
+            env["PYTHONPATH"] = os.path.join(REPO, "src") + os.pathsep + env.get("PYTHONPATH", "")
+        p = subprocess.run(mr["cmd"], shell=True, cwd=HERE, env=env)
+        rc = max(rc, p.returncode)
     if d.get("bounded_result_file") and os.path.exists(d["bounded_result_file"]):
         p = subprocess.run([PY, os.path.join(HERE, "bounded", "run.py"), "--replay", d["bounded_result_file"] + ":0"], cwd=HERE)
         rc = max(rc, p.returncode)
